@@ -4,6 +4,7 @@
 
 /* System Headers */
 #include <qthread/qthread-int.h> /* for uint64_t */
+#include <errno.h>               /* for errno */
 
 #ifdef HAVE_SYS_SYSCALL_H
 # include <sys/syscall.h>        /* for SYS_accept and others */
@@ -36,6 +37,7 @@ int qt_system(const char *command)
     me->thread_state        = QTHREAD_STATE_SYSCALL;
     qthread_back_to_master(me);
     ret = job->ret;
+    if (ret == -1) { errno = job->err; }
     FREE_SYSCALLJOB(job);
     return ret;
 }
